@@ -133,10 +133,7 @@ class Baton:
     def _handoff(self, me: str) -> None:
         other = OTHER[me]
         self._go[other].release()
-        import time as _t; _t0 = _t.time()
-        _r = self._go[me].acquire(timeout=self.WAIT_S)
-        if _t.time() - _t0 > 2: sys.stderr.write("DBG slow handoff wait %.1fs me=%s n=%d pid=%d\n" % (_t.time() - _t0, me, self.n, os.getpid()))
-        if not _r:
+        if not self._go[me].acquire(timeout=self.WAIT_S):
             self.hung = True
             raise _Abort()
 
@@ -261,9 +258,7 @@ class Baton:
             self._finish("T")
             if not self.done["R"]:
                 self._go["R"].release()          # R starts, or resumes, and runs to its end
-            import time as _t; _t0 = _t.time()
             ok = self._r_finished.acquire(timeout=self.WAIT_S * 2)
-            if _t.time() - _t0 > 2: sys.stderr.write("DBG slow r_finished wait %.1fs n=%d pid=%d\n" % (_t.time() - _t0, self.n, os.getpid()))
         finally:
             if not ok:
                 _discard_worker(w)               # the request thread is stuck or in an unknown state: never reuse it
